@@ -28,6 +28,7 @@ import os
 import pathlib
 import re
 import shutil
+import signal
 import sys
 import tempfile
 
@@ -75,6 +76,8 @@ def classify(exception):
 
 def key_of(out):
     """Stable key of a failing outcome (None when the outcome obeys the contract)."""
+    if out.get("timeout"):
+        return None
     if out["exc"] is not None:
         site = "recursion" if out["exc"]["class"] == "RecursionError" else out["exc"]["site"]
         return f'{out["exc"]["class"]}@{site}'
@@ -118,6 +121,14 @@ def shrink_jobs(items, base):
     return results
 
 
+class _JobTimeout(BaseException):
+    """Raised by the alarm: the job ran longer than the per-job limit."""
+
+
+def _on_alarm(signum, frame):
+    raise _JobTimeout()
+
+
 def run_one(job, base, tag):
     original_tmp = tempfile.gettempdir()
     default_limit = sys.getrecursionlimit()
@@ -133,9 +144,16 @@ def run_one(job, base, tag):
     tempfile.tempdir = str(job_tmp)
     if job.get("recursion_limit"):
         sys.setrecursionlimit(int(job["recursion_limit"]))
+    limit = int(job.get("time_limit", 240))
+    signal.signal(signal.SIGALRM, _on_alarm)
+    signal.alarm(limit)
     try:
         res = cli.run_job(job, workdir, job["files"])
+    except _JobTimeout:
+        res = {"rc": None, "stdout": "", "stderr": "", "files": {},
+               "exception": {"class": "_JobTimeout", "message": f"job exceeded {limit} s", "traceback": ""}}
     finally:
+        signal.alarm(0)
         sys.setrecursionlimit(default_limit)
         tempfile.tempdir = original_tmp
     shutil.rmtree(job_tmp, ignore_errors=True)
@@ -143,6 +161,10 @@ def run_one(job, base, tag):
     exc = res["exception"]
     if exc is not None and exc["class"] == "SystemExit":
         exc = None
+    if exc is not None and exc["class"] == "_JobTimeout":
+        # running time is not part of the property: reported as its own outcome, not a crash
+        return {"rc": None, "stderr_len": 0, "stderr": "", "stdout_len": 0, "n_files": 0, "exc": None,
+                "timeout": True}
     return {
         "rc": res["rc"],
         "stderr_len": len(res["stderr"]),
